@@ -82,6 +82,10 @@ def op_grid():
     G.append(("get_many", (["K", "k2", "zz"],), {}))
     G.append(("gets_many", (["K", "zz"],), {}))
     G.append(("get_many", ([],), {}))
+    # a key listed more than once
+    G.append(("get_many", (["K", "zz", "K", "k2", "zz"],), {}))
+    G.append(("gets_many", (["K", "K"],), {}))
+    G.append(("delete_many", (["K", "zz", "K"],), {"noreply": False}))
     # key collections that can be read only once (generator, iterator, map object)
     for m in ("get_many", "gets_many", "delete_many"):
         for coll in ("GEN", "ITER", "MAP"):
@@ -111,11 +115,15 @@ def main(argv):
     for pfx in (b"", b"p:"):
         for dnr in (True, False):
             for enc, au, key, val in (("ascii", False, "key", "val"), ("utf8", True, "kéy", "café"), ("utf8", False, "key", "café"), ("ascii", False, "key", b"\xff\x00bytes")):
-                for sd in (None, "pickle"):
+                for sd in (None, "pickle", "legacy-both", "legacy-deserializer-only", "legacy-serializer-only"):
+                    if sd and sd.startswith("legacy") and (enc != "ascii" or isinstance(val, bytes) or pfx):
+                        continue
                     for tmo in ((None, None), (1.5, 2.5)):
+                        if sd and sd.startswith("legacy") and tmo[0] is not None:
+                            continue
                         cfgs.append({"key_prefix": pfx, "default_noreply": dnr, "encoding": enc, "allow_unicode_keys": au, "_key": key, "_val": val, "_serde": sd, "_tmo": tmo})
     if not ctx.thorough:
-        cfgs = [c for i, c in enumerate(cfgs) if i % 3 == 0 or c["encoding"] == "utf8"]
+        cfgs = [c for i, c in enumerate(cfgs) if i % 3 == 0 or c["encoding"] == "utf8" or str(c["_serde"]).startswith("legacy")]
     states = ["hit", "miss", "cas-mismatch", "non-numeric", "numeric", "empty-value"]
     grid = op_grid()
     n = 0
@@ -123,6 +131,10 @@ def main(argv):
         kw = {k: v for k, v in cfg.items() if not k.startswith("_")}
         if cfg["_serde"] == "pickle":
             kw["serde"] = serde.PickleSerde()
+        if cfg["_serde"] in ("legacy-both", "legacy-serializer-only"):
+            kw["serializer"] = lambda key, value: ((b"S:" + value if isinstance(value, bytes) else ("S:" + str(value)).encode()), 5)
+        if cfg["_serde"] in ("legacy-both", "legacy-deserializer-only"):
+            kw["deserializer"] = lambda key, value, flags: ("D", flags, value)
         if cfg["_tmo"][0] is not None:
             kw["connect_timeout"], kw["timeout"] = cfg["_tmo"]
         K, VAL = cfg["_key"], cfg["_val"]
